@@ -39,7 +39,7 @@ package reghttp
 //@   ensures backoff-at-least-configured-delay: h0.backoffCur > 0 ==> $ns(t) >= $ns(old(h0.backoffLast)) + resp.client.delayInit
 //@   ensures released-time-recorded: h0.backoffCur > 0 ==> h0.backoffLast == t
 //@   entry-assume $bgNow == 0
-//@   on-call time.Now: $bgNow = $ns(result)
+//@   on-call Now: $bgNow = $ns(result)
 //@   ensures pending-deadline-handed-out: old(h0.backoffCur) <= 0 ==> (t == old(h0.backoffLast) || $ns(old(h0.backoffLast)) < $bgNow)
 
 // C12 "backed off from for at least the configured (or server-requested) delay": when the answer
@@ -55,8 +55,8 @@ package reghttp
 //@   entry-assume resp != nil && resp.client != nil
 //@   entry-assume $raAsked == 0 && $raNow == 0
 //@   let h0 = $hostOf(resp.client, resp.mirror)
-//@   on-call time.ParseDuration: $raAsked = result0
-//@   on-call time.Now: $raNow = $ns(result)
+//@   on-call ParseDuration: $raAsked = result0
+//@   on-call Now: $raNow = $ns(result)
 //@   ensures server-requested-delay-kept-in-full: $raAsked > 0 ==> err == nil && $ns(h0.backoffLast) >= $raNow + $raAsked
 //@   ensures release-time-never-moves-back: $ns(h0.backoffLast) >= $ns(old(h0.backoffLast))
 // C12 a pending server-requested delay survives other traffic: backoffSet records a Retry-After
